@@ -10,6 +10,8 @@ from pyvc import models as M
 from contracts import spec_wire as W
 
 X = 'rsocket/extensions/'
+# the parse loops' cursor, by role (robust against renaming): the left operand of the while test
+OFFSET = (('while_lhs',),)
 HP = 'rsocket/helpers.py::'
 FH = 'rsocket/frame_helpers.py::'
 MT = X + 'mimetypes.py::WellKnownMimeTypes'
@@ -200,24 +202,24 @@ def tagging_parse_step(E):
     st = {}
 
     def havoc(ctx):
-        ctx.env.vars['offset'] = mk_int(pre.len_term())
+        ctx.set_local('offset', mk_int(pre.len_term()), *OFFSET)
         ctx.self.attrs['tags'] = []
 
     def inv(ctx):
         if ctx.phase == 'entry':
-            return [('starts at 0 with no tags', ctx['offset'] == 0 and ctx.self.attrs['tags'] == [])]
+            return [('starts at 0 with no tags', ctx.local('offset', *OFFSET) == 0 and ctx.self.attrs['tags'] == [])]
         if ctx.phase == 'head':
             return []
         E.cover('step')
         tg = ctx.self.attrs['tags']
         return [('exactly one tag decoded: the encoded one', len(tg) == 1 and beq(E, tg[0], x, 'x')),
-                ('offset advanced by exactly the encoded length', I(ctx['offset']) == pre.len_term() + 1 + x.len_term())]
-    E.loop_specs[(TP, 0)] = LoopSpec(inv, lambda ctx: lift_bytes(buf).len_term() - I(ctx['offset']), havoc=havoc,
+                ('offset advanced by exactly the encoded length', I(ctx.local('offset', *OFFSET)) == pre.len_term() + 1 + x.len_term())]
+    E.loop_specs[(TP, 0)] = LoopSpec(inv, lambda ctx: lift_bytes(buf).len_term() - I(ctx.local('offset', *OFFSET)), havoc=havoc,
                                      modifies=['offset'])
     E.call(E.getattr(r, 'parse'), [buf])
     E.cover('exit')
     ctx = E.path.ghost['loops'][(TP, 0)]
-    E.prove('parse:exits_only_at_end_of_buffer', I(ctx['offset']) >= lift_bytes(buf).len_term())
+    E.prove('parse:exits_only_at_end_of_buffer', I(ctx.local('offset', *OFFSET)) >= lift_bytes(buf).len_term())
 
 
 @harness('c18.tagging.roundtrip.bounded', ['C18'], kind='bounded', functions=[TP, TG + '._serialize_tags'],
@@ -276,19 +278,19 @@ def stream_data_mimetypes_step(E):
     it = E.call(E.lookup(SD + 'StreamDataMimetypes'), [])
 
     def havoc(ctx):
-        ctx.env.vars['offset'] = mk_int(pre.len_term())
+        ctx.set_local('offset', mk_int(pre.len_term()), *OFFSET)
         ctx.self.attrs['data_encodings'] = []
 
     def inv(ctx):
         if ctx.phase == 'entry':
-            return [('starts at 0', ctx['offset'] == 0 and ctx.self.attrs['data_encodings'] == [])]
+            return [('starts at 0', ctx.local('offset', *OFFSET) == 0 and ctx.self.attrs['data_encodings'] == [])]
         if ctx.phase == 'head':
             return []
         E.cover('step')
         de = ctx.self.attrs['data_encodings']
         return [('exactly one entry decoded: the encoded one', len(de) == 1 and beq(E, de[0], name, 'x')),
-                ('offset advanced by exactly the encoded length', I(ctx['offset']) == pre.len_term() + 1 + name.len_term())]
-    E.loop_specs[(SDP, 0)] = LoopSpec(inv, lambda ctx: lift_bytes(buf).len_term() - I(ctx['offset']), havoc=havoc, modifies=['offset'])
+                ('offset advanced by exactly the encoded length', I(ctx.local('offset', *OFFSET)) == pre.len_term() + 1 + name.len_term())]
+    E.loop_specs[(SDP, 0)] = LoopSpec(inv, lambda ctx: lift_bytes(buf).len_term() - I(ctx.local('offset', *OFFSET)), havoc=havoc, modifies=['offset'])
     E.call(E.getattr(it, 'parse'), [buf])
     E.cover('exit')
 
@@ -346,18 +348,18 @@ def composite_parse_step(E):
     E.stubs[X + 'tagging.py::TaggingMetadata.parse'] = lambda E_, f, a, k: parsed.append(a[1])
 
     def havoc(ctx):
-        ctx.env.vars['offset'] = mk_int(pre.len_term())
+        ctx.set_local('offset', mk_int(pre.len_term()), *OFFSET)
         ctx.self.attrs['items'] = []
 
     def inv(ctx):
         if ctx.phase == 'entry':
-            return [('starts at 0 with no items', ctx['offset'] == 0 and ctx.self.attrs['items'] == [])]
+            return [('starts at 0 with no items', ctx.local('offset', *OFFSET) == 0 and ctx.self.attrs['items'] == [])]
         if ctx.phase == 'head':
             return []
         E.cover('step')
         its = ctx.self.attrs['items']
         out = [('exactly one item appended', len(its) == 1),
-               ('offset advanced by exactly the entry length', I(ctx['offset']) == pre.len_term() + lift_bytes(entry).len_term())]
+               ('offset advanced by exactly the entry length', I(ctx.local('offset', *OFFSET)) == pre.len_term() + lift_bytes(entry).len_term())]
         if len(its) == 1:
             it = its[0]
             out.append(('item class chosen by the MIME type', it.cls.name == want_cls))
@@ -367,7 +369,7 @@ def composite_parse_step(E):
             else:
                 out.append(('item content is exactly the body', beq(E, it.attrs['content'], body, 'cb')))
         return out
-    E.loop_specs[(CMP, 0)] = LoopSpec(inv, lambda ctx: lift_bytes(buf).len_term() - I(ctx['offset']), havoc=havoc, modifies=['offset'])
+    E.loop_specs[(CMP, 0)] = LoopSpec(inv, lambda ctx: lift_bytes(buf).len_term() - I(ctx.local('offset', *OFFSET)), havoc=havoc, modifies=['offset'])
     r = E.call(E.getattr(cm, 'parse'), [buf])
     E.cover('exit')
     E.prove('parse:returns_self', r is cm)
